@@ -24,6 +24,15 @@ def c16_case(draw, tier):
     g = pipegen.PipeGen(draw, cfg)
     var = g.source()
     var = g.extend(var, draw(st.integers(cfg.min_len, cfg.max_len)))
+    t0 = g.t(var)
+    if t0.group and len(t0.visible) >= 2 and draw(st.integers(0, 2)) == 0:
+        # a deselected grouping column keeps grouping the table, also across the re-rooting
+        gn = [n for n, c in t0.visible if c in t0.group]
+        if gn:
+            v2 = g.emit({"out": g.new_var(), "verb": "drop", "in": var, "cols": [{"c": draw(st.sampled_from(gn))}]})
+            if v2 is not None:
+                var = v2
+                g.classes.add("hidden_group_col")
     origin = var
     t0 = g.t(origin)
     case = g.case
@@ -61,8 +70,22 @@ def c16_case(draw, tier):
     final = r
     tr = g.t(r)
     # follow-up use
-    follow = draw(st.sampled_from(["none", "verbs", "selfjoin", "summarize"]))
-    if follow == "verbs":
+    follow = draw(st.sampled_from(["none", "verbs", "selfjoin", "summarize", "groupwin"]))
+    if "hidden_group_col" in g.classes and tr.group and draw(st.integers(0, 3)) > 0:
+        follow = "groupwin"
+    if follow == "groupwin" and not tr.group:
+        follow = "verbs"
+    if follow == "groupwin":
+        # an aggregate as window function sees the grouping that was in place before the re-rooting
+        items = [["n_g", ["fn", "count_star", [], {}]]]
+        ints = [n for n, c in tr.visible if tr.fam[c] == "int"]
+        if ints:
+            items.append(["s_g", ["fn", "sum", [["col", {"c": draw(st.sampled_from(ints))}]], {}]])
+        gv = g.emit({"out": g.new_var(), "verb": "mutate", "in": r, "items": items})
+        if gv is not None:
+            final = gv
+            g.classes.add("window_after_reroot")
+    elif follow == "verbs":
         final = g.extend(r, draw(st.integers(1, 2)))
     elif follow == "selfjoin" and kind in ("alias", "alias_twice") and not tr.group and not t0.group:
         lv, rvv = origin, r
@@ -111,7 +134,8 @@ class C16(C09):
     RULE = ("Hypothesis composite strategy: generated prefix pipeline (hidden columns, renames, grouping, joins), then one of "
             "alias(), alias(keep_col_refs=True), collect(), collect(keep_col_refs=False), transfer_col_references(Table("
             "exported frame), origin), alias twice; afterwards further verbs, a self-join of origin and alias, or a "
-            "summarize of a table that was grouped before the re-rooting; then references from the whole history are probed "
+            "summarize / aggregate-as-window mutate of a table that was grouped (possibly by a deselected column) before the "
+            "re-rooting; then references from the whole history are probed "
             "as in C09. Oracle: the re-rooted table exports exactly what the origin exports (names, order, rows); reference "
             "scoping model for old/new references (ColumnNotFoundError for cut-off ones); self-join and summarize results "
             "equal the reference; Polars, and SQLite for the alias kinds. non-trivial = prefix has a hidden or renamed "
